@@ -88,6 +88,7 @@ SRC = {
     "C09": "find_end_subtree_from_i, find_id_args_from_i, find_first_difference_between_two, common_region_two_trees, Tree.subtree_id / subtree / concat, Tree.get_levels / get_max_level (= levels / depth), Tree.get_common_region for two trees (= commonRegion2) (equal to the model on every well-formed tree, with no out-of-range access)",
     "C11": "binary_search_interval, check_for_value, argsort_k, tournament_selection (incl. the arguments it passes to random_sample: len(fitness), tour_size, replace=False), proportional_selection / rank_selection (weights = fitness / rank, with replacement), sattolo_shuffle, random_sample, random_weighted_sample",
     "C16": "EvolutionaryAlgorithm._get_n_jobs (= normJobs)",
+    "C17": "EvolutionaryAlgorithm._update_data (what is recorded per generation: the generation's own series, and max_fitness / max_g / max_ph taken at the same index, the first maximum of the fitness series)",
     "C19": "the integer counting loops of recall_score, precision_score and f1_score (= recallLoop / precisionLoop / f1Loop; in range on admissible labels)",
 }
 
